@@ -281,7 +281,7 @@ static int part_b(Src &s, Report &r) {
 	std::vector<size_t> when[5];		// delivery index
 	size_t deliveries = 0, risk_at = 0, net_reset_at = 0;	// last title delivery that may flush / last channel-switch reset by a network announcement
 	size_t ev_seen = 0;
-	bool change_then_repeat = false, announced = false;
+	bool change_then_repeat = false, announced = false, have_announced = false; std::string announced_name;
 	int rc = 0;
 	unsigned n_ops = 2 + s.pick(24);
 	Val cur[5]; bool have[5] = {false, false, false, false, false};
@@ -400,7 +400,8 @@ static int part_b(Src &s, Report &r) {
 		}
 		if (rc) break;
 		// completeness: first repeat after a change must be announced now
-		if (first_repeat && jk == 0) {
+		for (auto &e : evs) if (e.type == VBI_EVENT_NETWORK) { announced_name = e.name; have_announced = true; }
+		if (first_repeat && jk == 0 && !(have_announced && announced_name == strip(v.s))) {	// the station announced last, confirmed again, is no change (C13 judges that no event is raised then)
 			bool ok = false; for (auto &e : evs) if (e.type == VBI_EVENT_NETWORK && e.name == strip(v.s)) ok = true;
 			if (!ok) rc = r.fail("C09:B:network-not-announced", "network name \"%s\" received twice in a row but not announced", v.s.c_str());
 		}
